@@ -79,6 +79,8 @@ class Loader:
         b['__import__'] = self._import
         mod.__dict__['__builtins__'] = b
         mod.__dict__['__Q__'] = _Qconst
+        from . import loopcut
+        mod.__dict__['__pvc_loop__'] = loopcut.DISPATCH
         self.mods[modname] = mod
         if '.' in modname:
             parent, leaf = modname.rsplit('.', 1)
